@@ -53,7 +53,7 @@ type op struct {
 	F          *filt  `json:"f,omitempty"`
 	NoSlide    bool   `json:"noslide,omitempty"` // pex: ops only, expiry untouched
 	Cond       bool   `json:"cond,omitempty"`    // pex: PatchCondition st == "pending"
-	Force      string `json:"force,omitempty"`   // pred | sel : this claimer is delayed 1 virtual ms at that hook
+	Force      string `json:"force,omitempty"`   // pred | sel : this claimer is delayed 1 virtual ms at that hook; guard : this MUTATOR is parked 1 virtual ms holding its record's guard
 	// mutators
 	Keys []string `json:"keys,omitempty"`
 	St   string   `json:"st,omitempty"`
@@ -214,6 +214,8 @@ func gen(c *rig.Check, idx int) sched {
 		forced = "pred"
 	case x < 40:
 		forced = "sel"
+	case x < 62:
+		forced = "guard"
 	}
 	s.Tag = "stress"
 	if forced != "" {
@@ -227,7 +229,55 @@ func gen(c *rig.Check, idx int) sched {
 			claimers = append(claimers, genClaimer(r, []string{"shx", "shm", "shm", "pex", "pex"}[r.IntN(5)]))
 		}
 		var aim []string // keys the forced claimer would take from the seeded state
-		if forced != "" && w == 0 {
+		var guardMuts []op
+		if forced == "guard" && w == 0 {
+			// One Shift claimer alone (a second claimer would queue on the swamp's claim mutex behind
+			// the waiting one, which is not a durable block) that walks an ascending index, and a
+			// mutator of the FIRST member X of that index that is parked holding X's guard when the
+			// walk arrives. While the claim waits (index lock released) the other mutators run to
+			// completion, among them a Delete / ShiftByKeys of a record the claim would take.
+			cl := genClaimer(r, []string{"shx", "shm", "shm"}[r.IntN(3)])
+			cl.Desc = false
+			x := 0
+			if cl.Kind == "shm" && cl.Index != "exp" {
+				cl.Index = "key"
+				if cl.F == nil {
+					cl.F = genFilter(r, r.IntN(2) == 0)
+				}
+			} else {
+				x = r.IntN(len(s.Recs))
+				s.Recs[x].NoExp, s.Recs[x].Exp = false, -2*int64(time.Hour)-int64(time.Second)
+			}
+			claimers = []op{cl}
+			xk := s.Recs[x].Key
+			h := op{Keys: []string{xk}, Force: "guard"}
+			switch y := r.IntN(100); {
+			case y < 35:
+				h.Kind = "del"
+			case y < 55:
+				h.Kind = "sbk"
+			case y < 80:
+				h.Kind = "set"
+				h.St, h.G, h.N = statuses[r.IntN(len(statuses))], groups[r.IntN(len(groups))], int64(r.IntN(6))
+				h.Exp = p64(pickExp(r, 60))
+			default:
+				h.Kind = "patch"
+				h.St = statuses[r.IntN(len(statuses))]
+				if r.IntN(2) == 0 {
+					h.Exp = p64(pickExp(r, 61))
+				}
+			}
+			guardMuts = append(guardMuts, h)
+			for _, rc := range s.Recs {
+				if rc.Key != xk && matchesInitially(&claimers[0], rc) {
+					aim = append(aim, rc.Key)
+				}
+			}
+			for n := 1 + r.IntN(2); n > 0 && len(aim) > 0; n-- {
+				guardMuts = append(guardMuts, op{Kind: []string{"del", "del", "sbk"}[r.IntN(3)], Keys: []string{aim[r.IntN(len(aim))]}})
+			}
+		}
+		if (forced == "pred" || forced == "sel") && w == 0 {
 			fc := &claimers[0]
 			if forced == "pred" {
 				// the predicate hooks only matter for a request with an indexable leg
@@ -247,7 +297,7 @@ func gen(c *rig.Check, idx int) sched {
 		if forced != "" && w == 0 && nm == 0 {
 			nm = 1 + r.IntN(2)
 		}
-		var muts []op
+		muts := guardMuts
 		pickKey := func() string {
 			if len(aim) > 0 && r.IntN(100) < 70 {
 				return aim[r.IntN(len(aim))]
@@ -347,6 +397,20 @@ func fixedCases() []sched {
 			{Kind: "set", Keys: []string{"k00"}, St: "run", G: "b", N: 5, Exp: p64(-sec)},
 			{Kind: "patch", Keys: []string{"k01"}, St: "run"},
 			{Kind: "pex", HowMany: 0},
+		}})
+		// a mutator holds the guard of the first record of the walked index when the claim arrives;
+		// while the claim waits, other records it would take are deleted / popped
+		out = append(out, sched{Recs: recs(), Settle: settle, Tag: "fixed-guard-del", Ops: []op{
+			{Kind: "shx", HowMany: 4},
+			{Kind: "del", Keys: []string{"k00"}, Force: "guard"},
+			{Kind: "del", Keys: []string{"k01"}},
+			{Kind: "sbk", Keys: []string{"k02"}},
+		}})
+		out = append(out, sched{Recs: recs(), Settle: settle, WarmBuckets: true, Tag: "fixed-guard-set", Ops: []op{
+			{Kind: "shm", Index: "key", F: pend},
+			{Kind: "set", Keys: []string{"k00"}, St: "run", G: "a", N: 1, Exp: p64(-sec), Force: "guard"},
+			{Kind: "del", Keys: []string{"k01", "k03"}},
+			{Kind: "patch", Keys: []string{"k02"}, St: "done"},
 		}})
 		// plain competition of all three claimers, then a later wave
 		out = append(out, sched{Recs: recs(), Settle: settle, Tag: "fixed-compete", Ops: []op{
